@@ -7,6 +7,7 @@ package vt
 
 import (
 	"errors"
+	"fmt"
 	"sync"
 	"time"
 
@@ -330,6 +331,8 @@ func (ep *Endpoint) Connect() *Pipe {
 
 func (ep *Endpoint) newPipeLocked() *Pipe {
 	p := &Pipe{ep: ep, Index: len(ep.Pipes), hold: ep.HoldNew, opts: map[string]interface{}{}}
+	p.opts[mangos.OptionRemoteAddr] = fmt.Sprintf("vt-remote:%s:%d", ep.Name, p.Index)
+	p.opts[mangos.OptionLocalAddr] = fmt.Sprintf("vt-local:%s:%d", ep.Name, p.Index)
 	p.cv = sync.NewCond(&p.mu)
 	ep.Pipes = append(ep.Pipes, p)
 	return p
